@@ -114,8 +114,16 @@ def conflict (r s : Access) : Bool :=
 def isOrdered (f a b : Nat) : Bool :=
   T.ordered.any (fun k => k.field == f && ((k.fnA == a && k.fnB == b) || (k.fnA == b && k.fnB == a)))
 
+/-- the access is confined to the success verdict of the query (or precedes the query): it is not one of the
+extracted `unguardedAccesses`.  The chain callback -> worker's result -> dispatcher -> error channel -> caller that an
+`Ordered` entry stands for exists for the NIL verdict only; an error verdict (timeout, retry limit, shutdown) is sent
+while a worker may still be inside the callback. -/
+def onSuccessOnly (r : Access) : Bool :=
+  !unguardedAccesses.any (fun u => u.field == r.field && u.fn == r.fn && u.line == r.line)
+
 def pairOk (r s : Access) : Bool :=
-  !conflict T r s || share (effHeld T r.fn r.held) (effHeld T s.fn s.held) || isOrdered T r.field r.fn s.fn
+  !conflict T r s || share (effHeld T r.fn r.held) (effHeld T s.fn s.held) ||
+  (isOrdered T r.field r.fn s.fn && onSuccessOnly r && onSuccessOnly s)
 
 def rowOk (rows : List Access) (r : Access) : Bool := rows.all (pairOk T r)
 
